@@ -2,6 +2,7 @@ import StepModel.GenCxxMirror
 import StepModel.GenCxxFlags
 import StepModel.GenCxxFlagSpec
 import StepModel.GenCxxRedefSpec
+import StepModel.GenCxxFrame
 import StepModel.RegistryModel
 import StepModel.Accessors
 /-!
@@ -494,6 +495,70 @@ theorem C02_flags_explicit_redeclaration_witness :
                                       ("r", { name := "y", redecl := some "a", type := .base .real })]
     (xs.foldl (popStepM true) []).map (·.deriver) = [true] ∧ (xs.foldl (popStepM false) []).map (·.deriver) = [false] := by
   decide
+
+/-! ### several supertypes: what decides the flags -/
+
+/-- **Frame property.**  Constructing an `AppendMultInstance` part (a non-principal supertype, with everything it constructs in
+    turn) changes neither `_derive` nor `_redefAttr` of any `STEPattribute` that existed before: the part's `MakeDerived` /
+    `MakeRedefined` search the part's own attribute list, which holds only objects the part created.  For every schema. -/
+theorem C02_flags_part_frame (s : Schema) (f : Nat) (q : String) (st : IState) :
+    ∀ j, j < st.objs.length → flagsAt (ctorWF s f q st []).1 j = flagsAt st j :=
+  (ctorWF_frame s st.objs.length f q st [] (Nat.le_refl _) (by intro id h; simp at h)).1.2
+
+/-- **The rule along the principal line**, for every schema and every entity `n` with supertypes `p :: ps`: an attribute that
+    the principal supertype's constructor put on the instance is flagged derived after `n`'s constructor iff it was after
+    `p`'s constructor, or `n`'s own `MakeDerived` calls name it.  The other supertypes `ps` contribute nothing — which is the
+    exact content of the second-supertype deviation (`C02_flags_second_supertype_witness` is an instance: there
+    `derivedCalls` of `u` is empty because `dedupList` keeps the unmarked first copy).
+    `HeadKeyInj`: the head's attributes are told apart by (owner, registered name). -/
+theorem C02_flags_derive_principal_rule (s : Schema) (f : Nat) (n p : String) (ps : List String) (e : Entity)
+    (hE : s.findE n = some e) (hs : e.supers = p :: ps)
+    (hk : HeadKeyInj (ctorNF s (f + 1) n {}))
+    (j : Nat) (a : SA) (hj : saAt (ctorNF s f p {}) j = some a) (hjh : j ∈ (ctorNF s (f + 1) n {}).head) :
+    dAt (ctorNF s (f + 1) n {}) j = true ↔ dAt (ctorNF s f p {}) j = true ∨ (a.name, a.owner) ∈ derivedCalls s n := by
+  have hlt := saAt_lt hj
+  have hunf : ctorNF s (f + 1) n {} =
+      applyDerived (ownLoop e (ps.foldl (fun st q => (ctorWF s f q st []).1) (ctorNF s f p {})) none).1
+        (ownLoop e (ps.foldl (fun st q => (ctorWF s f q st []).1) (ctorNF s f p {})) none).1.head (derivedCalls s n) := by
+    rw [ctorNF_succ, hE]; simp only [hs, List.tail_cons]
+  generalize hst1 : ctorNF s f p {} = st1 at hj hlt hunf ⊢
+  -- the parts
+  have hok1 : HeadOK st1 := by rw [← hst1]; exact (ctorNF_eff s f p {} (by intro id h; simp at h)).ok
+  have hparts : ∀ (L : List String) (st : IState), HeadOK st → st1.objs.length ≤ st.objs.length →
+      (∀ i, i < st1.objs.length → flagsAt (L.foldl (fun st q => (ctorWF s f q st []).1) st) i = flagsAt st i) := by
+    intro L
+    induction L with
+    | nil => intro st _ _ i _; rfl
+    | cons q qs ih =>
+      intro st hok hle i hi
+      simp only [List.foldl_cons]
+      have fr := ctorWF_frame s st1.objs.length f q st [] hle (by intro id h; simp at h)
+      have e1 := ctorWF_eff s f q st [] hok
+      rw [ih _ e1.ok (Nat.le_trans hle fr.1.1) i hi]
+      exact fr.1.2 i hi
+  have hext := (fold_parts_eff s f (ctorWF_eff s f) ps st1 hok1).ext
+  generalize hst2 : ps.foldl (fun st q => (ctorWF s f q st []).1) st1 = st2 at hunf hext
+  have hfl2 : flagsAt st2 j = flagsAt st1 j := by rw [← hst2]; exact hparts ps st1 hok1 (Nat.le_refl _) j hlt
+  have hsa2 : saAt st2 j = some a := by rw [hext.2 j hlt]; exact hj
+  -- n's own attributes
+  obtain ⟨hle3, h3⟩ := ownLoop_none_dAt e st2
+  have hj2 : j < st2.objs.length := Nat.lt_of_lt_of_le hlt hext.1
+  generalize hmid : (ownLoop e st2 none).1 = mid at hunf h3
+  have hdm : dAt mid j = dAt st1 j := (h3 j hj2).1.trans (dAt_of_flagsAt hfl2)
+  have hsm : saAt mid j = some a := (h3 j hj2).2.trans hsa2
+  -- n's MakeDerived calls, on the head
+  obtain ⟨q1, q2, q3⟩ := applyDerived_projR (derivedCalls s n) mid mid.head
+  have hsaeq : ∀ i, saAt (applyDerived mid mid.head (derivedCalls s n)) i = saAt mid i := by
+    intro i
+    simp only [saAt]
+    have := congrArg (fun l => l[i]?) q3
+    simpa using this
+  rw [hunf] at hk hjh ⊢
+  have hkm : HeadKeyInj mid := by
+    intro i1 h1 j1 h2 x y hx hy hxy
+    exact hk i1 (by rw [q1]; exact h1) j1 (by rw [q1]; exact h2) x y (by rw [hsaeq]; exact hx) (by rw [hsaeq]; exact hy) hxy
+  have := (applyDerived_on_head (derivedCalls s n) mid hkm).2.2 j (by rw [← q1]; exact hjh) a hsm
+  rw [this, hdm]
 
 /-- Deviation 2: a derivation on a NON-principal path is lost.  `u SUBTYPE OF (c, b)`, `b` redeclares `SELF\a.x` as derived:
     in an instance of `u` the attribute `a.x` is not flagged (the part constructor of `b` marks its own copy, which the head
